@@ -107,6 +107,27 @@ func TestSmallSpace(t *testing.T) {
 	core.MarkExhaustive("small (8 states x holds of 1..2 callers x all release orders; 0 connections x 2..3 callers)")
 }
 
+// TestEarlyClose: Close before, while and after Serve is started.
+func TestEarlyClose(t *testing.T) {
+	if shard, _ := core.Shard(); shard != 0 {
+		return
+	}
+	for before := 0; before <= 2; before++ {
+		for conc := 0; conc <= 3; conc++ {
+			for after := 0; after <= 2; after++ {
+				for _, dial := range []bool{false, true} {
+					core.RunCase(t, "early", Early{ClosesBefore: before, Concurrent: conc, ClosesAfter: after, Dial: dial}, RunEarly)
+				}
+			}
+		}
+	}
+	core.MarkExhaustive("early (0..2 Close calls before Serve x 0..3 racing with its start x 0..2 after, with/without a pending client)")
+}
+
+func TestReplayEarly(t *testing.T) {
+	core.Replay(t, map[string]func(Early) core.Result{"early": RunEarly})
+}
+
 func TestReplay(t *testing.T) {
 	core.Replay(t, map[string]func(Case) core.Result{"main": Run, "small": Run})
 }
